@@ -567,6 +567,9 @@ def strat_karat_sqr(env, cfg):
 _K = {"quick": ["karat2"], "thorough": ["karat2"]}
 
 TARGETS = [
+    # coverage-guided search with in-target algebraic oracles (engine/fuzz/fuzz_bn.c): -runs per job
+    Target("fuzz-bn-arith", None, None, {"quick": ["fuzz256"], "thorough": ["fuzz256"]}, quick=160000, thorough=6000000,
+           fuzz="fuzz_bn_arith", job_size={"quick": 40000, "thorough": 400000}),
     Target("karat-mul", strat_karat, run_arith3, _K, quick=12000, thorough=80000),
     Target("karat-sqr", strat_karat_sqr, run_arith2, _K, quick=6000, thorough=40000),
     Target("arith3", strat_arith3, run_arith3, _cfgs(), quick=60000, thorough=400000),
